@@ -44,6 +44,9 @@ func TestC17(t *testing.T) {
 			for _, pat := range []string{"pubsub", "bus", "star", "survey"} {
 				cases = append(cases, mon.CaseSpec{Name: "fanout/" + pat + "/" + tr, Spec: spec{Kind: "fanout", Pat: pat, Tran: tr, N: 30 + rnd.Intn(40), Yield: rnd.Intn(2) == 0}})
 			}
+			for _, pat := range []string{"pair", "pushpull", "pubsub", "bus", "reqrep"} {
+				cases = append(cases, mon.CaseSpec{Name: "reusebuf/" + pat + "/" + tr, Spec: spec{Kind: "reusebuf", Pat: pat, Tran: tr, N: 16 + rnd.Intn(16), Yield: rnd.Intn(2) == 0}})
+			}
 			for _, pat := range []string{"pair", "pair1", "pushpull", "reqrep"} {
 				cases = append(cases, mon.CaseSpec{Name: "pipeline/" + pat + "/" + tr, Spec: spec{Kind: "pipeline", Pat: pat, Tran: tr, N: 30 + rnd.Intn(40), Yield: rnd.Intn(2) == 0}})
 			}
@@ -66,6 +69,8 @@ func TestC17(t *testing.T) {
 			runFanout(c, sp)
 		case "pipeline":
 			runPipeline(c, sp)
+		case "reusebuf":
+			runReuseBuf(c, sp)
 		case "outcome":
 			runOutcome(c, sp)
 		case "reqretain":
@@ -759,5 +764,115 @@ func runNewMsg(c *mon.Case, sp spec) {
 			c.Count("new_message_sizes", 1)
 		}
 	}
+	c.Nontrivial()
+}
+
+// runReuseBuf: Send(b) must not keep b — the caller may reuse its buffer as soon as Send returns,
+// while the message is still queued or in flight.  One buffer is reused (and scribbled over) for
+// every message; sizes include the region above the largest pool class.
+func runReuseBuf(c *mon.Case, sp spec) {
+	sizes := []int{65535, 65536, 65537, 70000, 100000, 131072, 200000, 8, 63, 64, 1000, 4096, 8192, 65000}
+	n := sp.N
+	var snd, rcv mangos.Socket
+	var extra []mangos.Socket
+	switch sp.Pat {
+	case "pair":
+		snd, rcv = hx.MustSock(c, "pair"), hx.MustSock(c, "pair")
+	case "pushpull":
+		snd, rcv = hx.MustSock(c, "push"), hx.MustSock(c, "pull")
+	case "pubsub":
+		snd, rcv = hx.MustSock(c, "pub"), hx.MustSock(c, "sub")
+		rcv.SetOption(mangos.OptionSubscribe, []byte{})
+		x := hx.MustSock(c, "sub")
+		x.SetOption(mangos.OptionSubscribe, []byte{})
+		extra = append(extra, x)
+	case "bus":
+		snd, rcv = hx.MustSock(c, "bus"), hx.MustSock(c, "bus")
+		extra = append(extra, hx.MustSock(c, "bus"))
+	case "reqrep":
+		snd, rcv = hx.MustSock(c, "req"), hx.MustSock(c, "rep")
+		snd.SetOption(mangos.OptionRetryTime, time.Hour)
+	}
+	if !connectAll(c, sp.Tran, snd, append([]mangos.Socket{rcv}, extra...)...) {
+		return
+	}
+	var wg sync.WaitGroup
+	got := 0
+	var mu sync.Mutex
+	recvOne := func(who string, s mangos.Socket) bool {
+		b, err := s.Recv()
+		if err != nil {
+			if !c.Failed() {
+				c.Violate("harness:recv-error", "%s Recv: %v", who, err)
+			}
+			return false
+		}
+		id, ln, ok := idOf(b)
+		var want []byte
+		if ok && ln <= 1<<21 {
+			want = body(id, ln)
+		}
+		if !bytes.Equal(b, want) {
+			c.Violate("owner/send-kept-callers-buffer", "%s received %d bytes %x... that are not what was sent: the bytes passed to Send changed after Send had returned (the caller reused its buffer), so the library did not copy them", who, len(b), head(b))
+			return false
+		}
+		mu.Lock()
+		got++
+		mu.Unlock()
+		return true
+	}
+	for i, r := range append([]mangos.Socket{rcv}, extra...) {
+		i, r := i, r
+		wg.Add(1)
+		go func() {
+			defer wg.Done()
+			for q := 0; q < n; q++ {
+				if !recvOne(fmt.Sprintf("receiver%d", i), r) {
+					return
+				}
+				if sp.Pat == "reqrep" {
+					if err := r.Send([]byte("ok")); err != nil {
+						return
+					}
+				}
+			}
+		}()
+	}
+	buf := make([]byte, 200000)
+	sender := mon.Go("sender", func() (interface{}, error) {
+		for q := 0; q < n && !c.Failed(); q++ {
+			sz := sizes[(q+c.Rand.Intn(3))%len(sizes)]
+			copy(buf, body(uint32(40000+q), sz))
+			if err := snd.Send(buf[:sz]); err != nil {
+				return nil, err
+			}
+			// the caller owns buf again: scribble over it at once
+			for i := 0; i < sz; i++ {
+				buf[i] = 0x5A
+			}
+			if sp.Pat == "reqrep" {
+				if _, err := snd.Recv(); err != nil {
+					return nil, err
+				}
+			} else if q%4 == 3 {
+				mon.Sleep(300 * time.Microsecond) // best-effort patterns: stay far from queue overflow
+			}
+		}
+		return nil, nil
+	})
+	if !c.AwaitOrViolate("owner/reusebuf-stuck:"+sp.Pat, "sender finishing", sender.Done, mon.AwaitOpts{MaxTimer: 10 * time.Millisecond}) {
+		return
+	}
+	if _, err, _ := sender.Result(); err != nil && !c.Failed() {
+		c.Violate("harness:send-error", "sender: %v", err)
+		return
+	}
+	if c.Failed() {
+		return
+	}
+	if !await(c, "owner/reusebuf-stuck:"+sp.Pat, "receivers getting every message", &wg) {
+		return
+	}
+	c.Count("messages_received", got)
 	c.Nontrivial()
 }
